@@ -6,6 +6,9 @@
 pub mod sym;
 pub mod spec;
 pub mod c01;
+pub mod c02;
+pub mod c03;
+pub mod c18;
 
 macro_rules! table {
     ($($m:ident :: $f:ident),* $(,)?) => {
@@ -19,6 +22,16 @@ macro_rules! table {
 
 table! {
     c01::h_tokeniser,
+    c01::h_cmp,
+    c01::h_glue,
+    c02::h_compile,
+    c02::h_match,
+    c18::h_any,
+    c18::h_tokens,
+    c03::h_laws2,
+    c03::h_trans,
+    c03::h_api_laws,
+    c03::h_two_bounds,
 }
 
 /// Entry point of the native replay binary.
